@@ -586,7 +586,7 @@ func (s *hybridSearch) Execute() ([]HybridSearchResult, error) {
 	}
 
 	// If only metadata search was performed (no vector or text)
-	if len(combinedScores) == 0 && len(candidateIDs) > 0 {
+	if len(s.vectorQuery) == 0 && len(s.textQueries) == 0 && len(candidateIDs) > 0 {
 		for _, id := range candidateIDs {
 			combinedScores[id] = 1.0
 		}
